@@ -2,7 +2,7 @@
    the position handed to ctx.Warn is the Pos() of a node of the analysed file, hence (by wf, which the tie checks
    against an independent go/scanner pass) the start of a token of that file; the zero-value suggestion of newDeref
    never contains a nil node. *)
-From GC Require Import Base GoAst Model_Checkers Model_Checkers_Prefix Model_Checkers2 Model_Walkers Proofs_Checkers Proofs_Checkers2 Proofs_Walkers Proofs_Witnesses.
+From GC Require Import Base GoAst Model_Checkers Model_Checkers_Prefix Model_Checkers2 Model_Walkers Model_Comments Proofs_Checkers Proofs_Checkers2 Proofs_Walkers Proofs_Comments Proofs_Witnesses.
 
 Theorem C07_newDeref_pos_valid : forall f, wf f = true -> forall w, In w (warnings (run_newDeref f)) -> In (w_pos w) (token_starts f).
 Proof. exact (fun f W w H => cause_pos_valid f w W (newDeref_cause f w H)). Qed.
@@ -215,3 +215,7 @@ Print Assumptions C07_localCommentWalker_shows_file_comments.
 Theorem C07_docCommentWalker_shows_doc_fields : forall f cs g, In g (walk_doc_comments f cs) -> exists n, In n (all_nodes f) /\ In (tag_code n, npos n, g) (c_docs cs).
 Proof. exact (walk_doc_comments_docs). Qed.
 Print Assumptions C07_docCommentWalker_shows_doc_fields.
+
+Theorem C07_deprecatedComment_pos_valid : forall f cs ct w, wf_comments f cs = true -> In w (warnings (run_deprecatedComment f cs ct)) -> In (w_pos w) (token_starts f).
+Proof. exact (deprecatedComment_pos_valid). Qed.
+Print Assumptions C07_deprecatedComment_pos_valid.
